@@ -4,6 +4,7 @@ package props
 
 import (
 	"fmt"
+	tx "github.com/MinterTeam/minter-go-node/coreV2/transaction"
 	"regexp"
 	"strings"
 	"testing"
@@ -80,17 +81,51 @@ func addDec(a, b string) string {
 
 // C11 – exported state round-trips through genesis.
 func TestC11(t *testing.T) {
-	rapid.Check(t, func(t *rapid.T) {
+	rapid.Check(t, func(t *rapid.T) { c11Case(t, false) })
+}
+
+// TestC11CandidateLimit: the same round trip on worlds with 87..100 candidates, short stake periods
+// and crafted declarations before and after the export: candidates are removed by the 100-candidate
+// limit, and a candidate declared after the export must get the same id on both chains (ids of
+// removed candidates are never handed out again).
+func TestC11CandidateLimit(t *testing.T) {
+	rapid.Check(t, func(t *rapid.T) { c11Case(t, true) })
+}
+
+func c11Case(t *rapid.T, many bool) {
+	{
 		wo := sim.DefaultOpts()
 		wo.MinStakePd = 3
-		h := newHistory(t, wo, sim.GeneralProfile(), sim.BlockOpts{MaxTxs: 8, Absences: true, Evidence: true, TimeJumps: true})
+		prof := sim.GeneralProfile()
+		if many {
+			wo.MinExtraCands, wo.MaxExtraCands = 86, 95
+			wo.Frozen, wo.Orders, wo.Votes = false, false, false
+			wo.MinStakePd, wo.MaxStakePd = 3, 6
+			prof = stakingProfile()
+			prof["declare"] = 10
+		}
+		h := newHistory(t, wo, prof, sim.BlockOpts{MaxTxs: 8, Absences: true, Evidence: !many, TimeJumps: true})
+		declared := 0
+		if many {
+			h.R.H.AfterBegin = func(sim.BlockReq) {
+				if !craftDeclarations(t, h, &declared) {
+					if h.R.Divergence != "" {
+						violation(t, "roundtrip-response-differs", h.R, "%s", h.R.Divergence)
+					}
+					violation(t, "panic", h.R, "%s", h.R.PanicReport())
+				}
+			}
+		}
 		nb := 1 + sim.U(t, "nBlocks", scale(14, 40))
+		if many && nb > 10 {
+			nb = 10
+		}
 		for i := 0; i < nb; i++ {
 			if !h.R.Block(t) {
 				violation(t, "panic", h.R, "%s", h.R.PanicReport())
 			}
 		}
-		atPayout := sim.U(t, "exportAtPayout", 2) == 0
+		atPayout := sim.U(t, "exportAtPayout", 2) == 0 || many
 		for i := 0; atPayout && i < int(h.W.StakePeriod) && h.N.LastHeight%h.W.StakePeriod != 0; i++ {
 			if !h.R.Block(t) {
 				violation(t, "panic", h.R, "%s", h.R.PanicReport())
@@ -99,7 +134,10 @@ func TestC11(t *testing.T) {
 		if h.R.Halted {
 			return
 		}
-		strict := h.N.LastHeight%h.W.StakePeriod == 0
+		// (many-candidate worlds: a candidate removed in the payout block of the export changes the
+		// delegated totals of its coins after the bip values were computed; Import computes them again -
+		// known finding c11-import-recalculates-stakes - so totals are compared in the normalised view)
+		strict := h.N.LastHeight%h.W.StakePeriod == 0 && !many
 		hgt := h.N.LastHeight
 		e := exportAsGenesis(h.N)
 		// (1) the export validates
@@ -117,11 +155,62 @@ func TestC11(t *testing.T) {
 		}
 		e2 := n2.Export()
 		a, b := roundTripView(sim.Flatten(&e), strict), roundTripView(sim.Flatten(&e2), strict)
+		if !strict && len(sim.DiffFlat(a, b)) == 0 && len(sim.DiffFlat(roundTripView(sim.Flatten(&e), true), roundTripView(sim.Flatten(&e2), true))) > 0 {
+			// the only differences are the ones of the known finding (pending updates merged, bip values
+			// and totals recomputed by Import): excluded by the normalised view, and counted
+			sim.S.Exclude(c11SigImportRecalc, 1)
+		}
 		if d := sim.DiffFlat(a, b); len(d) > 0 {
 			violation(t, "roundtrip-export-differs", h.R, "export at height %d (payout height: %v) and the export of a chain started from it differ (original -> re-imported): %v", hgt, strict, d)
 		}
 		if got, want := n2.App.GetEmission().String(), e.Emission; got != want {
 			violation(t, "roundtrip-emission-differs", h.R, "emission %s -> %s", want, got)
+		}
+		if many {
+			// (3') the same declaration on both chains gets the same candidate id, and no id of a removed
+			// candidate is handed out again
+			h.R.H.AfterBegin = nil
+			var u *sim.User
+			for i := 0; i < h.W.NUsers; i++ {
+				if x := sim.GetUser(i); h.G.Balance(x.Addr, 0).Cmp(sim.Bip(30000)) > 0 {
+					u = x
+				}
+			}
+			if u == nil {
+				t.Skip("nobody can afford a declaration after the export")
+			}
+			key := sim.ValKey(9001)
+			raw := sim.SignedTx(h.W, u, h.G.Nonce(u.Addr)+1, tx.TypeDeclareCandidacy, tx.DeclareCandidacyData{Address: u.Addr, PubKey: key, Commission: 10, Coin: 0, Stake: sim.Bip(5000)}, 0)
+			var ids [2]uint32
+			var codes [2]uint32
+			for i, nd := range []*sim.Node{h.N, n2} {
+				req := sim.BlockReq{Height: nd.LastHeight + 1, Time: h.N.Time.Add(5e9), Votes: nd.AllSigned()}
+				if nd.WouldHalt(req) {
+					t.Skip("halt")
+				}
+				if nd.BeginBlock(req) {
+					violation(t, "panic", h.R, "BeginBlock after the export panicked on %s: %s", nd.Name, nd.Panics[0].Value)
+				}
+				r, ok := nd.DeliverTx(raw)
+				if !ok {
+					violation(t, "panic", h.R, "DeliverTx after the export panicked on %s: %s", nd.Name, nd.Panics[0].Value)
+				}
+				codes[i] = r.Code
+				ids[i] = nd.App.VerifStateDeliver().Candidates.ID(key)
+				nd.EndBlock()
+				nd.Commit()
+			}
+			h.R.Steps = append(h.R.Steps, fmt.Sprintf("EXPORT at %d -> new chain; declaration on both: codes %v, candidate ids %v", hgt, codes, ids))
+			if codes[0] != codes[1] {
+				violation(t, "roundtrip-response-differs", h.R, "the same declaration after the export of %d returns code %d on the original chain and %d on the chain started from the export", hgt, codes[0], codes[1])
+			}
+			if codes[0] == 0 && ids[0] != ids[1] {
+				violation(t, "roundtrip-candidate-id-differs", h.R, "the same declaration after the export of %d gets candidate id %d on the original chain and %d on the chain started from the export (removed candidates in the export: %d)", hgt, ids[0], ids[1], len(e.DeletedCandidates))
+			}
+			sim.S.LabelN("C11/candidate-limit/declared", declared)
+			sim.S.LabelN("C11/candidate-limit/removed-candidates-in-export", len(e.DeletedCandidates))
+			sim.S.Case("TestC11CandidateLimit", len(e.DeletedCandidates) > 0 && codes[0] == 0, sim.HashStrings(h.R.Steps), func() interface{} { return sim.HistorySample(h.R.Steps, 30) })
+			return
 		}
 		// (3) both chains behave alike for the same following blocks
 		n2.Time = h.N.Time
@@ -169,7 +258,7 @@ func TestC11(t *testing.T) {
 		sim.S.LabelN("C11/exports-with-votes", boolN(votes > 0))
 		sim.S.LabelN("C11/exports-at-payout-height", boolN(hgt%h.W.StakePeriod == 0))
 		sim.S.Case("TestC11", orders > 0 && frozen > 0 && h.R.AcceptedTx > acc, sim.HashStrings(h.R.Steps), func() interface{} { return sim.HistorySample(h.R.Steps, 30) })
-	})
+	}
 }
 
 var maxGasRe = regexp.MustCompile(`maxgas=\d+`)
@@ -179,4 +268,65 @@ func boolN(b bool) int {
 		return 1
 	}
 	return 0
+}
+
+const c11SigImportRecalc = "c11-import-recalculates-stakes"
+
+// TestC11_KF_ImportRecalculatesStakes reproduces the known finding deterministically and reports
+// whether it is still present: State.Import (and InitChain's validator update) recalculate the stakes,
+// so a delegation that is still pending in the export (made since the last recalculation) is a stake on
+// the chain started from it - the export of that chain differs (no pending update, another stake,
+// other totals) and the delegator takes part in the next reward payout there but not on the original.
+func TestC11_KF_ImportRecalculatesStakes(t *testing.T) {
+	w := rapid.Custom(func(t *rapid.T) *sim.World {
+		o := sim.DefaultOpts()
+		o.MaxBancor, o.MaxTokens, o.MaxPools = 1, 0, 0
+		o.MinStakePd, o.MaxStakePd = 12, 12
+		return sim.GenWorld(t, o)
+	}).Example(11)
+	n := sim.NewNode(w)
+	g := sim.NewGen(n, sim.GeneralProfile())
+	var u *sim.User
+	for i := 0; i < w.NUsers; i++ {
+		if g.Balance(sim.GetUser(i).Addr, 0).Cmp(sim.Bip(5000)) > 0 {
+			u = sim.GetUser(i)
+			break
+		}
+	}
+	if u == nil || len(g.V.Cands) == 0 {
+		t.Skip("no funded user or no candidate in the example world")
+	}
+	// a block right after a recalculation, with a delegation from an address without a stake there
+	for n.LastHeight%w.StakePeriod != 0 {
+		if !n.EmptyBlock() {
+			t.Skip("cannot reach a payout height")
+		}
+	}
+	pk := g.V.Cands[0].PubKey
+	raw := sim.SignedTx(w, u, g.Nonce(u.Addr)+1, tx.TypeDelegate, tx.DelegateDataV260{PubKey: pk, Coin: 0, Value: sim.Bip(1234)}, 0)
+	n.BeginBlock(sim.BlockReq{Height: n.LastHeight + 1, Time: n.Time.Add(5e9), Votes: n.AllSigned()})
+	r, _ := n.DeliverTx(raw)
+	n.EndBlock()
+	n.Commit()
+	if r.Code != 0 {
+		t.Skipf("delegation rejected with code %d", r.Code)
+	}
+	e := exportAsGenesis(n)
+	pending := 0
+	for _, c := range e.Candidates {
+		pending += len(c.Updates)
+	}
+	w2 := *w
+	w2.Genesis = e
+	w2.InitialHeight = int64(n.LastHeight) + 1
+	n2 := sim.NewNode(&w2)
+	e2 := n2.Export()
+	pending2 := 0
+	for _, c := range e2.Candidates {
+		pending2 += len(c.Updates)
+	}
+	d := sim.DiffFlat(roundTripView(sim.Flatten(&e), true), roundTripView(sim.Flatten(&e2), true))
+	reproduced := pending > 0 && pending2 == 0 && len(d) > 0
+	t.Logf("pending updates in the export: %d, in the export of the chain started from it: %d, strict differences: %d -> reproduced=%v", pending, pending2, len(d), reproduced)
+	sim.S.KnownFinding(c11SigImportRecalc, reproduced)
 }
